@@ -37,6 +37,16 @@ type snapStream struct {
 	final       *State
 	sv          schemaView
 	tailIDs     int
+	// the commits recorded while the snapshot ran, in commit order: the transaction behind each, its
+	// block, and whether that block had already been read when it committed (else the block state holds it)
+	tail  []tailEntry
+	dense bool // a 16 384-row source: dumps are expensive, fewer offsets
+}
+
+type tailEntry struct {
+	spec      *TxnSpec
+	block     uint32
+	afterRead bool
 }
 
 // buildSnapshotStream populates a collection with a seeded history and takes a snapshot while
@@ -53,6 +63,9 @@ func buildSnapshotStream(w *W, idx int, seed int64) *snapStream {
 	if rng.Intn(8) == 0 {
 		cfg.Steps = 0 // empty or layout-only collection
 	}
+	if idx%3 == 2 {
+		cfg.Steps, cfg.LayoutPct, cfg.KeyedPct = 0, 0, 0 // becomes the "filled exactly to the block boundary" source below
+	}
 	cfg.Txn.MaxLive = 120
 	h := &history{w: w, idx: idx, cfg: cfg, rng: rng, stats: map[string]int64{}, lastID: map[uint32]uint64{}, nCols: map[Kind]int{}, caseID: fmt.Sprintf("E5:snap%d", idx)}
 	h.g = newGen(seed+1, "edge")
@@ -62,10 +75,33 @@ func buildSnapshotStream(w *W, idx int, seed int64) *snapStream {
 	for h.steps = 0; h.steps < cfg.Steps; h.steps++ {
 		h.txnQuiet()
 	}
+	// some unkeyed sources are filled exactly up to the end of block 0 or block 1, so that an insert
+	// committed while the snapshot runs opens a block: either before the state is written (at
+	// recorderOpen, after two stores to one cell) or after it (the block is then in the log tail only)
+	dense, denseBlocks, growLate := false, 0, false
+	if h.wd.M.KeyCol == "" && len(h.wd.M.Live) == 0 && idx%3 == 2 {
+		dense, denseBlocks, growLate = true, 1+(idx/3)%2, (idx/6)%2 == 1
+		for blk := 1; blk <= denseBlocks; blk++ { // one transaction per block: the collection grows block by block
+			h.wd.P.Query(func(txn *column.Txn) error {
+				for len(h.wd.M.Live) < blk<<14 {
+					off, err := txn.Insert(func(r column.Row) error { return nil })
+					if err != nil {
+						panic(err)
+					}
+					h.wd.M.Live[off] = true
+				}
+				return nil
+			})
+		}
+		h.wd.Log.take()
+		h.cfg.Txn.PInsert, h.cfg.Txn.PDelete, h.cfg.Txn.MaxLive = 40, 5, 1 << 20
+	}
 	// snapshot with transactions committing at the hook points
 	ntail := 0
 	budget := rng.Intn(13) // up to 12 commits in the tail
 	blockModels := map[uint32]*Model{}
+	read := map[uint32]bool{}
+	var tailEntries []tailEntry
 	hook := func(point string, c *column.Collection, chunk uint32) {
 		if c != h.wd.P {
 			return
@@ -73,20 +109,52 @@ func buildSnapshotStream(w *W, idx int, seed int64) *snapStream {
 		defer func() {
 			if point == "snapshot.beforeBlock" {
 				blockModels[chunk] = h.wd.M.Clone() // block `chunk` is read next: it must hold exactly this
+				read[chunk] = true
 			}
 		}()
-		if budget <= 0 {
-			return
+		record := func(spec *TxnSpec, before int) {
+			made := len(h.wd.Log.commits) - before
+			budget -= made
+			ntail += made
+			if spec != nil {
+				var bs []int
+				for b := range changedBlocks(spec.Ops) {
+					bs = append(bs, int(b))
+				}
+				sort.Ints(bs) // a transaction commits its blocks in ascending order
+				for _, b := range bs {
+					tailEntries = append(tailEntries, tailEntry{spec: spec, block: uint32(b), afterRead: read[uint32(b)]})
+				}
+			}
+		}
+		directed := func(ops ...Op) {
+			spec := TxnSpec{Ops: ops}
+			before := len(h.wd.Log.commits)
+			rep := h.wd.execTxn(h.wd.P, &spec, false, nil)
+			if rep.Err != nil || rep.Panic != "" {
+				panic(fmt.Sprintf("E5: directed transaction failed: %v %s", rep.Err, rep.Panic))
+			}
+			h.wd.M.Apply(spec.Ops)
+			record(&spec, before)
+		}
+		if dense && ((point == "snapshot.recorderOpen" && !growLate) || (point == "snapshot.beforeRecorderClose" && growLate)) {
+			// two stores to one cell of block 0, then the insert that opens the next block
+			directed(Op{T: "at", Off: 5, W: []Write{{Col: "i", V: Val{B: 1001}}}})
+			directed(Op{T: "at", Off: 5, W: []Write{{Col: "i", V: Val{B: 1002}}}})
+			directed(Op{T: "ins", W: []Write{{Col: "i", V: Val{B: 77}}}})
+			if growLate {
+				directed(Op{T: "at", Off: 9, W: []Write{{Col: "i", V: Val{B: 1003}}}})
+			}
+		}
+		if budget <= 0 || (dense && !growLate && !read[0]) {
+			return // (early growth: nothing else commits to block 0 before it is read)
 		}
 		switch point {
 		case "snapshot.recorderOpen", "snapshot.beforeBlock", "snapshot.beforeRecorderClose":
 			n := 1 + rng.Intn(3)
 			for i := 0; i < n && budget > 0; i++ {
 				before := len(h.wd.Log.commits)
-				h.txnQuiet()
-				made := len(h.wd.Log.commits) - before
-				budget -= made
-				ntail += made
+				record(h.txnQuietSpec(), before)
 			}
 		}
 	}
@@ -108,8 +176,23 @@ func buildSnapshotStream(w *W, idx int, seed int64) *snapStream {
 	if stateEnd < 0 {
 		panic("E5: hook snapshot.beforeCopy never reached")
 	}
+	if dense {
+		// focused dumps (DESIGN.md 3.4): liveness of every row, values of the rows the tail touched and of some others
+		focus := map[uint32]bool{0: true, 1: true, 5: true, 9: true, 16383: true, 16384: true, 32767: true, 32768: true}
+		for _, e := range tailEntries {
+			for _, o := range e.spec.Ops {
+				if o.HasOff {
+					focus[o.GotOff] = true
+				}
+			}
+		}
+		h.wd.M.Focus = focus
+		for _, mb := range blockModels {
+			mb.Focus = focus
+		}
+	}
 	sv := h.wd.M.view(h.wd.Keys)
-	return &snapStream{data: buf.Bytes(), stateEnd: stateEnd, wd: h.wd, h: h, final: dumpState(h.wd.P, sv), sv: sv, tailIDs: ntail, blockModels: blockModels}
+	return &snapStream{data: buf.Bytes(), stateEnd: stateEnd, wd: h.wd, h: h, final: dumpState(h.wd.P, sv), sv: sv, tailIDs: ntail, blockModels: blockModels, tail: tailEntries, dense: dense}
 }
 
 // buildBigStream: a snapshot whose state part spans several s2 frames (> 1 MiB of incompressible
@@ -169,10 +252,13 @@ func buildBigStream(w *W, idx int, seed int64) *snapStream {
 }
 
 // txnQuiet executes one generated transaction on the primary and the model, no oracles.
-func (h *history) txnQuiet() {
+func (h *history) txnQuiet() { h.txnQuietSpec() }
+
+// txnQuietSpec does the same and returns the executed transaction if it committed.
+func (h *history) txnQuietSpec() *TxnSpec {
 	spec := h.g.genTxn(h.wd.M, h.liveRows(), h.cfg.Txn)
 	if len(spec.Ops) == 0 {
-		return
+		return nil
 	}
 	rep := h.wd.execTxn(h.wd.P, &spec, false, nil)
 	h.logf("  (quiet) %s => %v", spec.String(), rep.Err)
@@ -181,11 +267,14 @@ func (h *history) txnQuiet() {
 	}
 	if rep.Err == nil {
 		h.wd.M.Apply(spec.Ops)
+		return &spec
 	}
+	return nil
 }
 
 type restoreOutcome struct {
 	err   error
+	st    *State
 	hash  uint64
 	panic string
 	hung  bool
@@ -230,7 +319,7 @@ func (s *snapStream) restoreFrom(data []byte) restoreOutcome {
 		defer c.Close()
 		rerr := c.Restore(bytes.NewReader(data))
 		st := dumpState(c, s.sv)
-		return restoreOutcome{err: rerr, hash: stateHash(st)}
+		return restoreOutcome{err: rerr, hash: stateHash(st), st: st}
 	})
 }
 
@@ -341,6 +430,38 @@ func truncSnapshotCase(w *W, idx int) {
 		}
 		allowedOK[o.hash] = j
 		eHashes = append(eHashes, o.hash)
+		// anchor E_j against the model: per block, what the model held when the block was read, plus those of
+		// the first j recorded commits that were applied to the block after it had been read (a block that did
+		// not exist when the state was written starts empty). The reference restore itself is thereby checked.
+		if s.wd.M.KeyCol == "" && len(s.tail) == len(commits) && s.blockModels != nil {
+			blocks := map[uint32]bool{}
+			for b := range s.blockModels {
+				blocks[b] = true
+			}
+			for _, e := range s.tail[:j] {
+				blocks[e.block] = true
+			}
+			for b := range blocks {
+				var cur *Model
+				if mb, ok := s.blockModels[b]; ok {
+					cur = modelBlock(mb, b)
+				} else {
+					cur = modelBlock(s.emptyModel(), b)
+				}
+				cur.Trig = nil
+				for _, e := range s.tail[:j] {
+					if e.block == b && (e.afterRead || s.blockModels[b] == nil) {
+						cur.Apply(opsInBlock(*e.spec, b))
+					}
+				}
+				if d := cmpBlock(o.st, cur, b); d != "" {
+					w.Violate(idx, caseID, fmt.Sprintf("the state part + the first %d of %d recorded commits restores without error, but block %d is not what the primary held when that block was read plus the recorded commits applied to it afterwards: %s", j, len(commits), b, d), "",
+						map[string]any{"idx": idx, "commits": j})
+					return
+				}
+				w.Stat("commit_boundary_blocks_anchored_against_model", 1)
+			}
+		}
 	}
 	// anchor: E_m is the primary when the recorder closed
 	if eHashes[len(eHashes)-1] != stateHash(s.final) {
@@ -386,6 +507,10 @@ func truncSnapshotCase(w *W, idx int) {
 	sample := 400
 	if big {
 		sample = 60 // a restore of 40 000 rows costs tens of milliseconds
+	}
+	if s.dense {
+		sample, every = 60, false
+		w.Stat("snapshot_streams_growing_into_a_new_block_while_written", 1)
 	}
 	offs := truncOffsets(w, len(s.data), bounds, rng, every, sample)
 	okCount, errCount := 0, 0
@@ -586,4 +711,14 @@ func init() {
 		Plan: truncPlan, Run: truncRun,
 		MinEvents: map[string]int64{"truncated_restores": 1000, "truncated_log_ranges": 1000, "prefixes_restored_without_error": 16},
 	})
+}
+
+// emptyModel: the schema of the source without rows
+func (s *snapStream) emptyModel() *Model {
+	m := s.wd.M.Clone()
+	m.Live = map[uint32]bool{}
+	for c := range m.Cells {
+		m.Cells[c] = map[uint32]Val{}
+	}
+	return m
 }
